@@ -91,8 +91,13 @@ fn extension_group(input: Input<'_>) -> ParserResult<'_, SequenceComponent> {
             }
             SequenceComponent::Member(SequenceOrSetMember {
                 is_recursive: false,
+                // a group may consist of `COMPONENTS OF` only: it is then named after the first reference
                 name: String::from(INTERNAL_EXTENSION_GROUP_NAME_PREFIX)
-                    + &members.first().unwrap().name,
+                    + members
+                        .first()
+                        .map(|m| m.name.as_str())
+                        .or(components_of.first().map(|c| c.as_str()))
+                        .unwrap_or_default(),
                 tag: None,
                 ty: ASN1Type::Sequence(SequenceOrSet {
                     components_of,
